@@ -1,4 +1,5 @@
 import RgVerif.Lemmas.SearcherC01
+import RgVerif.Props.C01Regex
 /-
 C01 — a line is reported iff the pattern matches that line: **searcher-level half** (line-by-line search of
 `core.rs` / `lines.rs`: slow path, fast path, inverted fast path).  The matcher is an arbitrary `MatcherI`;
@@ -82,6 +83,202 @@ theorem C01_content_fast (cfg : Config) (m : MatcherI) (inp : Bytes) (hbin : cfg
     (hcert : lineSafeCheck cfg m inp (linesOf cfg m inp) = true) :
     reported (sliceByLine cfg m allCont inp).events = selectedLines cfg.lineTerm.asByte (propSel cfg m) inp := by
   rw [C01_fast_cert cfg m inp hbin hs hfast hcert, codeSel_eq_propSel]
+
+/-! ### End to end: searcher + the matcher built by `RegexMatcherBuilder::build_many`
+
+The matcher-level half (module `Props/C01Regex.lean`, C11) speaks about `Rx.MatcherM` (the compiled HIR, the
+fast-line literals) and an engine `shortest` satisfying `EngineSpec`.  `bridge` presents that matcher to the
+searcher model; the theorems below compose the two halves. -/
+
+/-- `Rx.LineTerm` as the searcher's `LineTerm` -/
+def convLT : Rx.LineTerm → Lines.LineTerm
+  | .byte b => .byte b
+  | .crlf => .crlf
+
+def convCand : Rx.Cand → LineMatchKind
+  | .candidate i => .candidate i
+  | .confirmed i => .confirmed i
+
+/-- The `grep_matcher::Matcher` the searcher is handed: `shortest_match` is the engine on the compiled
+expression, `find_candidate_line` / `line_terminator` / `non_matching_bytes` are the built matcher's
+(`find_at` is only used by multi-line search and plays no role here). -/
+def bridge (m : Rx.MatcherM) (shortest : Bytes → Option Nat) : MatcherI :=
+  { findAt := fun _ _ => none
+  , shortestAt := fun h at_ => if at_ = 0 then shortest h else none
+  , findCandidateLine := fun h => (m.findCandidateLine shortest h).map convCand
+  , lineTerminator := m.lineTerm.map convLT
+  , nonMatchingBytes := some fun b => m.nonMatching.contains b }
+
+open Classical in
+/-- **the property's selection**: the user's expression (patterns joined; `-F`, `-w`, `-x`, case options
+applied) matches somewhere in the line's content — flipped by inversion -/
+noncomputable def userSel (lk : Rx.LookFn) (rcfg : Rx.Config) (pats : List Bytes) (translated : Rx.Hir)
+    (lt : Lines.LineTerm) (invert : Bool) (line : Bytes) : Bool :=
+  decide (∃ s e, Rx.Matches lk (rcfg.wrap (rcfg.userHir pats translated)) (content lt line) s e) != invert
+
+/-- guard: no line's content contains a byte of the terminator the *pattern* was built for (automatic for a
+one-byte terminator equal to the searcher's, `content_no_term`; under `--crlf` it excludes a lone `\r`
+inside a line — finding F18) -/
+def ContentClean (rcfg : Rx.Config) (lt : Lines.LineTerm) (inp : Bytes) : Prop :=
+  ∀ l ∈ splitLines lt.asByte inp, ∀ t ∈ (rcfg.lineTerm.map Rx.LineTerm.bytes).getD [], t ∉ content lt l
+
+theorem propSel_bridge_eq_userSel (lk : Rx.LookFn) (rcfg : Rx.Config) (pats : List Bytes) (translated : Rx.Hir)
+    (accelerated : Bool) (optimize : Rx.Seq → Rx.Seq) (norm : Rx.Hir → Rx.Hir) (shortest : Bytes → Option Nat)
+    (m : Rx.MatcherM) (hb : rcfg.build pats translated accelerated optimize norm = .ok m)
+    (hnorm : ∀ h hay s e, Rx.Matches lk (norm h) hay s e ↔ Rx.Matches lk h hay s e)
+    (heng : C11.EngineSpec lk m.hir shortest) (cfg : Config) (l : Bytes)
+    (hl : ∀ t ∈ (rcfg.lineTerm.map Rx.LineTerm.bytes).getD [], t ∉ content cfg.lineTerm l) :
+    propSel cfg (bridge m shortest) l = userSel lk rcfg pats translated cfg.lineTerm cfg.invertMatch l := by
+  have h := C01Regex.C01_regex_isMatch lk rcfg pats translated accelerated optimize norm shortest m hb hnorm heng
+    (content cfg.lineTerm l) hl
+  unfold propSel userSel MatcherI.isMatch bridge
+  simp only [if_true]
+  congr 1
+  cases hs : (shortest (content cfg.lineTerm l)).isSome
+  · have : ¬ ∃ s e, Rx.Matches lk (rcfg.wrap (rcfg.userHir pats translated)) (content cfg.lineTerm l) s e := by
+      intro hp; have := h.2 hp; rw [hs] at this; exact Bool.noConfusion this
+    simp [this]
+  · have := h.1 hs
+    simp [this]
+
+/-- **C01, slow path, end to end** — for every pattern list the builder accepts, every flag combination,
+every engine meeting `EngineSpec`, every searcher configuration and every input whose line contents are
+free of the pattern's terminator bytes: the lines reported as matching are exactly the lines whose content
+the user's expression matches (inverted: the others). No guard on the look-arounds is needed: the slow path
+asks the matcher about each line alone. -/
+theorem C01_slow_end_to_end (lk : Rx.LookFn) (rcfg : Rx.Config) (pats : List Bytes) (translated : Rx.Hir)
+    (accelerated : Bool) (optimize : Rx.Seq → Rx.Seq) (norm : Rx.Hir → Rx.Hir) (shortest : Bytes → Option Nat)
+    (m : Rx.MatcherM) (hb : rcfg.build pats translated accelerated optimize norm = .ok m)
+    (hnorm : ∀ h hay s e, Rx.Matches lk (norm h) hay s e ↔ Rx.Matches lk h hay s e)
+    (heng : C11.EngineSpec lk m.hir shortest)
+    (cfg : Config) (inp : Bytes) (hbin : cfg.binary = .none) (hs : cfg.stopOnNonmatch = false)
+    (hslow : isLineByLineFast cfg (bridge m shortest) (Core.new cfg true) = false)
+    (hclean : ContentClean rcfg cfg.lineTerm inp) :
+    reported (sliceByLine cfg (bridge m shortest) allCont inp).events =
+      selectedLines cfg.lineTerm.asByte (userSel lk rcfg pats translated cfg.lineTerm cfg.invertMatch) inp := by
+  rw [C01_content_slow cfg (bridge m shortest) inp hbin hs hslow]
+  unfold selectedLines
+  have : ((splitLines cfg.lineTerm.asByte inp).map fun l => (l, propSel cfg (bridge m shortest) l))
+      = ((splitLines cfg.lineTerm.asByte inp).map fun l =>
+          (l, userSel lk rcfg pats translated cfg.lineTerm cfg.invertMatch l)) := by
+    apply List.map_congr_left
+    intro l hl
+    rw [propSel_bridge_eq_userSel lk rcfg pats translated accelerated optimize norm shortest m hb hnorm heng cfg l
+      (hclean l hl)]
+  rw [this]
+
+/-- **C01, fast path, end to end**, under the guard that the built matcher is line safe on this input
+(`LineSafe`; decidable per run through `lineSafeCheck`, `C01_fast_cert`).  The matcher-level half supplies
+clauses (a) `C01_regex_no_terminator`, (c) `C01_regex_candidate` and, for expressions whose look-arounds are LF
+anchors / ASCII or Unicode word assertions, (b) `LineSafeB_partial(_unicode)`; clause (b) is false in general
+(findings F1, F2, F24: `LookContextIndependent_full_fails`, `crlf_match_between_cr_and_lf`). -/
+theorem C01_fast_end_to_end (lk : Rx.LookFn) (rcfg : Rx.Config) (pats : List Bytes) (translated : Rx.Hir)
+    (accelerated : Bool) (optimize : Rx.Seq → Rx.Seq) (norm : Rx.Hir → Rx.Hir) (shortest : Bytes → Option Nat)
+    (m : Rx.MatcherM) (hb : rcfg.build pats translated accelerated optimize norm = .ok m)
+    (hnorm : ∀ h hay s e, Rx.Matches lk (norm h) hay s e ↔ Rx.Matches lk h hay s e)
+    (heng : C11.EngineSpec lk m.hir shortest)
+    (cfg : Config) (inp : Bytes) (hbin : cfg.binary = .none) (hs : cfg.stopOnNonmatch = false)
+    (hfast : isLineByLineFast cfg (bridge m shortest) (Core.new cfg true) = true)
+    (hsafe : LineSafe cfg (bridge m shortest) inp (linesOf cfg (bridge m shortest) inp))
+    (hclean : ContentClean rcfg cfg.lineTerm inp) :
+    reported (sliceByLine cfg (bridge m shortest) allCont inp).events =
+      selectedLines cfg.lineTerm.asByte (userSel lk rcfg pats translated cfg.lineTerm cfg.invertMatch) inp := by
+  rw [C01_fast cfg (bridge m shortest) inp hbin hs hfast hsafe, codeSel_eq_propSel]
+  unfold selectedLines
+  have : ((splitLines cfg.lineTerm.asByte inp).map fun l => (l, propSel cfg (bridge m shortest) l))
+      = ((splitLines cfg.lineTerm.asByte inp).map fun l =>
+          (l, userSel lk rcfg pats translated cfg.lineTerm cfg.invertMatch l)) := by
+    apply List.map_congr_left
+    intro l hl
+    rw [propSel_bridge_eq_userSel lk rcfg pats translated accelerated optimize norm shortest m hb hnorm heng cfg l
+      (hclean l hl)]
+  rw [this]
+
+theorem mem_of_mem_dropLast {a : Nat} {l : Bytes} (h : a ∈ l.dropLast) : a ∈ l := by
+  rw [List.dropLast_eq_take] at h; exact List.mem_of_mem_take h
+
+/-- the content of a line never contains the terminator byte the input was split at -/
+theorem content_no_term (lt : Lines.LineTerm) (inp : Bytes) (l : Bytes) (hl : l ∈ splitLines lt.asByte inp) :
+    lt.asByte ∉ content lt l := by
+  have hg := splitLines_good lt.asByte inp
+  have hline : Term lt.asByte l ∨ Unterm lt.asByte l := by
+    generalize splitLines lt.asByte inp = ls at hg hl
+    induction hg with
+    | nil => simp at hl
+    | last x hu => simp at hl; subst hl; exact Or.inr hu
+    | cons x xs ht _ ih =>
+      simp only [List.mem_cons] at hl
+      rcases hl with rfl | hl
+      · exact Or.inl ht
+      · exact ih hl
+  rcases hline with ⟨body, rfl, hnb⟩ | hu
+  · have h1 : (body ++ [lt.asByte]).getLast? = some lt.asByte := by simp
+    have h2 : (body ++ [lt.asByte]).dropLast = body := by simp
+    unfold content
+    rw [if_pos h1, h2]
+    split
+    · exact fun hm => hnb (mem_of_mem_dropLast hm)
+    · exact hnb
+  · unfold content
+    split
+    · split
+      · exact fun hm => hu.2 (mem_of_mem_dropLast (mem_of_mem_dropLast hm))
+      · exact fun hm => hu.2 (mem_of_mem_dropLast hm)
+    · exact hu.2
+
+/-- for a pattern built for the one-byte terminator the searcher splits at (LF, NUL), the guard holds for every input -/
+theorem contentClean_byte (rcfg : Rx.Config) (cfg : Config) (inp : Bytes) (b : Nat)
+    (h1 : rcfg.lineTerm = some (.byte b)) (h2 : cfg.lineTerm = .byte b) : ContentClean rcfg cfg.lineTerm inp := by
+  intro l hl t ht
+  simp only [h1, Option.map_some, Option.getD_some, Rx.LineTerm.bytes, List.mem_singleton] at ht
+  subst ht
+  have := content_no_term cfg.lineTerm inp l hl
+  rw [h2] at this ⊢
+  exact this
+
+/-! ### the matcher-level half, re-exported (proved in `Props/C01Regex.lean`) -/
+
+open RgVerif.Rx RgVerif.Props.C11 in
+theorem C01_regex_no_terminator (lk : LookFn) (cfg : Rx.Config) (pats : List Bytes) (translated : Hir)
+    (accelerated : Bool) (optimize : Seq → Seq) (norm : Hir → Hir) (shortest : Bytes → Option Nat) (m : MatcherM)
+    (hb : cfg.build pats translated accelerated optimize norm = .ok m)
+    (hnorm : ∀ h hay s e, Matches lk (norm h) hay s e → Matches lk h hay s e)
+    (hopt : OptimizeCert optimize m.hir ((cfg.lineTerm.map Rx.LineTerm.bytes).getD []))
+    (heng : EngineSpec lk m.hir shortest)
+    (hay : Bytes) (s e : Nat) (hm : Matches lk m.hir hay s e) :
+    ∀ t ∈ (cfg.lineTerm.map Rx.LineTerm.bytes).getD [], t ∉ Rx.slice hay s e :=
+  C01Regex.C01_regex_no_terminator lk cfg pats translated accelerated optimize norm shortest m hb hnorm hopt heng hay s e hm
+
+open RgVerif.Rx RgVerif.Props.C11 in
+theorem C01_regex_candidate (lk : LookFn) (cfg : Rx.Config) (pats : List Bytes) (translated : Hir)
+    (accelerated : Bool) (optimize : Seq → Seq) (norm : Hir → Hir) (shortest : Bytes → Option Nat) (m : MatcherM)
+    (hb : cfg.build pats translated accelerated optimize norm = .ok m)
+    (hnorm : ∀ h hay s e, Matches lk (norm h) hay s e → Matches lk h hay s e)
+    (hopt : OptimizeCert optimize m.hir ((cfg.lineTerm.map Rx.LineTerm.bytes).getD []))
+    (heng : EngineSpec lk m.hir shortest)
+    (hay : Bytes) (s e : Nat) (hm : Matches lk m.hir hay s e) :
+    ∃ c, m.findCandidateLine shortest hay = some c ∧
+      ∀ t ∈ (cfg.lineTerm.map Rx.LineTerm.bytes).getD [], NoByteIn t hay e c.offset :=
+  C01Regex.C01_regex_candidate lk cfg pats translated accelerated optimize norm shortest m hb hnorm hopt heng hay s e hm
+
+open RgVerif.Rx RgVerif.Props.C11 in
+theorem C01_regex_isMatch (lk : LookFn) (cfg : Rx.Config) (pats : List Bytes) (translated : Hir)
+    (accelerated : Bool) (optimize : Seq → Seq) (norm : Hir → Hir) (shortest : Bytes → Option Nat) (m : MatcherM)
+    (hb : cfg.build pats translated accelerated optimize norm = .ok m)
+    (hnorm : ∀ h hay s e, Matches lk (norm h) hay s e ↔ Matches lk h hay s e)
+    (heng : EngineSpec lk m.hir shortest)
+    (l : Bytes) (hl : ∀ t ∈ (cfg.lineTerm.map Rx.LineTerm.bytes).getD [], t ∉ l) :
+    (shortest l).isSome = true ↔ ∃ s e, Matches lk (cfg.wrap (cfg.userHir pats translated)) l s e :=
+  C01Regex.C01_regex_isMatch lk cfg pats translated accelerated optimize norm shortest m hb hnorm heng l hl
+
+open RgVerif.Rx in
+theorem LineSafeB_partial (isWord : Nat → Bool) (h : Hir) (hsafe : allLooks safeLookLF h = true)
+    (buf : Bytes) (ls le : Nat) (hl : IsLine 10 buf ls le) (s e : Nat) (h1 : ls ≤ s) (hse : s ≤ e) (h2 : e ≤ le) :
+    Matches (lookAt isWord) h buf s e ↔ Matches (lookAt isWord) h (Rx.slice buf ls le) (s - ls) (e - ls) :=
+  C01Regex.LineSafeB_partial isWord h hsafe buf ls le hl s e h1 hse h2
+
+theorem LookContextIndependent_full_fails : ¬ C01Regex.LookContextIndependent_full :=
+  C01Regex.LookContextIndependent_full_fails
 
 /-! ### Non-vacuity -/
 
